@@ -143,6 +143,26 @@ def run(payload):
             fails.append({"id": "adaptive.rkf45_stage_times", "t0": t0, "dt": h, "got": eq.times[:6], "want": (t0 + nodes * h).tolist()})
         elif not np.allclose(state.data - u_start, prim(t_end) - prim(t0), rtol=0, atol=1e-10):
             fails.append({"id": "adaptive.rkf45_cubic_quadrature_not_exact", "t0": t0, "dt": h, "got": (state.data - u_start).tolist(), "want": float(prim(t_end) - prim(t0))})
+    # ---- adaptive Euler (step doubling, the rate of the accepted state is reused by the next step): two accepted steps
+    #      of size h on the quadrature du/dt = b t; stage times t, t + h/2 and t + h for the reused rate
+    from pde.solvers import EulerSolver
+    for backend in ["numpy", "numba"]:
+        for t0, h in ((0.0, 0.5), (2.0, 0.125)):
+            b = float(rng.uniform(0.5, 2.0))
+            state = ScalarField(grid, [1.0, -3.0, 0.5])
+            u_start = state.data.copy()
+            cases += 1
+            try:
+                solver_obj = EulerSolver(Lin(0.0, b), backend=backend, adaptive=True, tolerance=1e3)
+                t_end = solver_obj.make_stepper(state, dt=h)(state, t0, t0 + 2 * h)
+            except Exception as e:
+                fails.append({"id": f"adaptive.euler_stage_times.{backend}", "error": f"{type(e).__name__}: {e}"})
+                continue
+            want = sum(h / 2 * b * t + h / 2 * b * (t + h / 2) for t in (t0, t0 + h))
+            if solver_obj.info["steps"] == 2 and not np.allclose(state.data - u_start, want, rtol=0, atol=1e-12):
+                fails.append({"id": f"adaptive.euler_reused_rate_evaluated_at_a_stale_time.{backend}", "t0": t0, "dt": h, "b": b, "got": (state.data - u_start).tolist(), "want": want})
+            elif solver_obj.info["steps"] != 2:
+                fails.append({"id": f"adaptive.euler_stage_times.{backend}", "error": f"expected 2 accepted steps, got {solver_obj.info['steps']}"})
     for solver in ["euler", "runge-kutta"]:
         for backend in ["numpy", "numba"]:
             a = float(rng.uniform(-2.0, -0.5))
